@@ -5,6 +5,7 @@ import (
 	"go/ast"
 	"go/token"
 	"go/types"
+	"golang.org/x/tools/go/ssa"
 	"os"
 	"path/filepath"
 	"regexp"
@@ -718,7 +719,7 @@ func checkFECLayout(p *Prog, r *Report) {
 		okA := false
 		if fi != nil && len(fi.Body.List) == 1 {
 			if ret, ok := fi.Body.List[0].(*ast.ReturnStmt); ok && len(ret.Results) == 1 {
-				rv := p.recvVar(fi)
+				rv := p.selfVar(fi)
 				switch x := ast.Unparen(ret.Results[0]).(type) {
 				case *ast.CallExpr:
 					if f := p.Callee(x); f != nil && widthOfPut(f.Name()) == a.width && len(x.Args) == 1 {
@@ -1123,6 +1124,14 @@ func checkEntropyAdvance(p *Prog, r *Report) {
 				}
 			}
 		}
+		if !(ok && adv) {
+			// the critical section expressed through a helper (withLock(func(){ advance; produce })): decided on the
+			// interprocedural lockset — every production of output, in Read or in a function literal of Read, runs with
+			// the generator's mutex held and is dominated, in its own function, by the state advance
+			if okL, _ := p.producedUnderLock(fi, tn); okL {
+				ok, adv = true, true
+			}
+		}
 		r.check(ok && adv, "C09.L8", fi.Name, p.Pos(fi.Node), "state advance and output inside the mutex", "Lock; advance; produce; Unlock", "the generator's output is produced outside its mutex or before the state advances: two callers can obtain the same nonce")
 	}
 }
@@ -1151,7 +1160,7 @@ func (p *Prog) unwrapDelegate(fi *FuncInfo) (*FuncInfo, map[types.Object]*Term) 
 		return nil, nil
 	}
 	bind := map[types.Object]*Term{}
-	if rv := p.recvVar(h); rv != nil {
+	if rv := p.selfVar(h); rv != nil {
 		if sel, ok := ast.Unparen(call.Fun).(*ast.SelectorExpr); ok {
 			bind[rv] = p.Term(sel.X)
 		}
@@ -1168,4 +1177,91 @@ func (p *Prog) unwrapDelegate(fi *FuncInfo) (*FuncInfo, map[types.Object]*Term) 
 		bind[po] = t
 	}
 	return h, bind
+}
+
+// producedUnderLock: every call that writes the generator's output into Read's buffer parameter (copy(p, …) or
+// X.Read(p)), in fi or a function literal nested in it, is executed with the mutex field of type tn held
+// (must-lockset of the SSA instruction at that call) and is dominated within its function by the advancing
+// call updateSeed.
+func (p *Prog) producedUnderLock(fi *FuncInfo, tn string) (bool, string) {
+	la := p.Locks()
+	class := ""
+	if st, ok := p.Named(tn).Underlying().(*types.Struct); ok {
+		for i := 0; i < st.NumFields(); i++ {
+			if isSyncType(st.Field(i).Type()) {
+				class = tn + "." + st.Field(i).Name()
+			}
+		}
+	}
+	if class == "" {
+		return false, "no mutex field"
+	}
+	buf := firstByteSliceParam(p, fi)
+	us := p.TryMethod(tn, "updateSeed")
+	heldAtPos := func(pos token.Pos) LockSet {
+		for _, f := range la.funcs {
+			for _, b := range f.Blocks {
+				for _, in := range b.Instrs {
+					if ci, ok := in.(ssa.CallInstruction); ok && ci.Pos() == pos {
+						return la.heldAt[in]
+					}
+				}
+			}
+		}
+		return nil
+	}
+	n := 0
+	for _, g := range p.funcs {
+		if rootFuncInfo(g) != fi {
+			continue
+		}
+		c := p.CFG(g)
+		var adv []Point
+		var prod []*ast.CallExpr
+		inspectBody(g, func(x ast.Node) bool {
+			call, ok := x.(*ast.CallExpr)
+			if !ok {
+				return true
+			}
+			if us != nil && p.Callee(call) == us {
+				if pt, ok := c.PointOf(call); ok {
+					adv = append(adv, pt)
+				}
+			}
+			if p.BuiltinName(call) == "copy" && len(call.Args) == 2 {
+				if id, ok := ast.Unparen(call.Args[0]).(*ast.Ident); ok && p.Info.Uses[id] == buf {
+					prod = append(prod, call)
+				}
+			} else if sel, ok := ast.Unparen(call.Fun).(*ast.SelectorExpr); ok && sel.Sel.Name == "Read" && len(call.Args) == 1 {
+				if id, ok := ast.Unparen(call.Args[0]).(*ast.Ident); ok && p.Info.Uses[id] == buf {
+					prod = append(prod, call)
+				}
+			}
+			return true
+		})
+		for _, call := range prod {
+			n++
+			pt, ok := c.PointOf(call)
+			if !ok {
+				return false, "output call not located"
+			}
+			dom := false
+			for _, a := range adv {
+				if c.Dominates(a, pt) {
+					dom = true
+				}
+			}
+			if !dom {
+				return false, "output at " + p.Pos(call) + " is not preceded by the state advance"
+			}
+			if p.BuiltinName(call) == "copy" {
+				return false, "copy is not a call instruction"
+			}
+			held := heldAtPos(call.Lparen)
+			if held == nil || !held[class] {
+				return false, "output at " + p.Pos(call) + " is produced without " + class
+			}
+		}
+	}
+	return n > 0, ""
 }
